@@ -871,6 +871,38 @@ CURATED_WITH_FLAT = [
 ]
 
 
+SQUASH_UNITS = ["[!]CC[!]", "[!]C[C;0.5][!]", "[!]COC[!]", "[!]C(C)C[!]", "[!]C[O;2.0]C[!]", "[!]CNC[!]", "[!]CC(=O)C[!]"]
+
+
+def build_squash_item(rng):
+    """Chains of units joined through shared atoms (squash operator), optionally below a grouping level."""
+    units = rng.sample(SQUASH_UNITS, k=rng.choice([1, 2, 2, 3]))
+    names = ["Q%d" % (k + 1) for k in range(len(units))]
+    seq = [rng.randrange(len(units)) for _ in range(rng.randint(1, 5))]
+    start = rng.choice(["C[C;0.5][!]", "OC[!]", "[N;2.0]C[!]", "CC[!]"])
+    end = rng.choice(["[!]CC", "[!]C[O;0.1]", "[!]CCl"])
+    chain = ["A"] + [names[k] for k in seq] + ["D"]
+    defs = ["#A=" + start] + ["#%s=%s" % (names[k], units[k]) for k in range(len(units))] + ["#D=" + end]
+    leaf_block = "{" + ",".join(defs) + "}"
+    perm = list(defs)
+    rng.shuffle(perm)
+    if rng.random() < 0.4 and len(chain) >= 3:
+        # a grouping level on top: the chain is cut into two groups joined by an ordinary descriptor pair
+        cut = rng.randint(1, len(chain) - 1)
+        g1 = "".join("[#%s]" % n for n in chain[:cut]) + "[$]"
+        g2 = "[$]" + "".join("[#%s]" % n for n in chain[cut:])
+        # the squash between the two beads next to the cut happens one level down: keep it inside one group
+        base = "{[#G1][#G2]}"
+        blocks = ["{#G1=%s,#G2=%s}" % (g1, g2), leaf_block]
+        perms = ["{#G2=%s,#G1=%s}" % (g2, g1), "{" + ",".join(perm) + "}"]
+    else:
+        base = "{" + "".join("[#%s]" % n for n in chain) + "}"
+        blocks = [leaf_block]
+        perms = ["{" + ",".join(perm) + "}"]
+    return {"family": "squash", "kind": "atomistic", "last_all_atom": True, "n_levels": len(blocks), "base": base, "blocks": blocks,
+            "perm_blocks": perms, "multi": ".".join([base] + blocks), "flat": None, "composition": False, "shared_atoms": True}
+
+
 def build_curated_item(rng):
     import re
     if rng.random() < 0.25:
